@@ -205,6 +205,24 @@ def finite_derivations(rules, V, everywhere=False):
     return [(h, b) if (h, b) in useful else (f"#dead{i}", ()) for i, (h, b) in enumerate(rules)]
 
 
+def no_recursion(rules, V):
+    """True iff the dependency graph of ALL rules (useful or not) is acyclic."""
+    edges = {}
+    for h, b in rules:
+        edges.setdefault(h, set()).update(y for y in b if y not in V)
+    color = {}
+
+    def dfs(x):
+        color[x] = 1
+        for y in edges.get(x, ()):
+            if color.get(y) == 1 or (y not in color and dfs(y)):
+                return True
+        color[x] = 2
+        return False
+
+    return not any(dfs(x) for x in list(edges) if x not in color)
+
+
 def run_num(case):
     rules = case_rules(case)
     V = case_terms(case)
